@@ -35,10 +35,13 @@ func init() {
 		Rule: "exhaustive: a skeleton document with every position ResolveRefsIn, the ten resolvers and resolveContentRefs/resolveExampleRefs visit (table WalkSites: the nine component " +
 			"collections incl. links, response headers/links, examples of parameters, headers and media types, content of parameters and headers, encoding headers, schemas, callbacks, path items, " +
 			"operations) × 16 reference spellings (relative, ./, ../ escape, sub-directory, absolute, file://, http, https, " +
-			"scheme-relative, same path as the root on another host, whole-file and fragment forms, missing target) × 3 entry points × both switch settings (quick: a sixth of the grid); " +
+			"scheme-relative, same path as the root on another host, whole-file and fragment forms, missing target) × 4 entry points (LoadFromFile/LoadFromURI, LoadFromDataWithPath, LoadFromData, the public ResolveRefsIn(doc, nil) on a fresh Loader) × both switch settings (quick: a sixth of the grid); " +
 			"enumerated families: $ref path items whose target is itself a $ref (target resolved / sorting later / in progress), a reference text in progress for one kind and met under another kind " +
 			"(6 shapes × every sub-position), targets only the raw re-read reaches; hand-made cross-document shapes (corpus) and a seeded random stream of multi-file universes " +
-			"(element files are also read through references of other kinds). Every case is loaded twice: recording reader directly and behind openapi3.URIMapCache. " +
+			"(element files are also read through references of other kinds); root locations whose directory or file name holds '#', '?' or a literal %XX (7 roots × 3 references × 3 entry points × switch); " +
+			"the library's own readers (ReadFromURIs(ReadFromHTTP, ReadFromFile) in both orders, ReadFromFile alone, DefaultReadFromURI where it stays off the network) on 5 schemes × 3 hosts × 4 paths " +
+			"over a scratch directory and a recording http.RoundTripper; histories in which the switch is turned off between calls and the later call is the exported ResolveRefsIn(doc, location) " +
+			"called directly on the used Loader (that step is judged against the spec only). Every case is loaded twice: recording reader directly and behind openapi3.URIMapCache. " +
 			"Non-trivial = the model reports a branch other than the default (a read, a denial, a cache hit, a re-read, an in-progress skip, …).",
 		Exhaustive: true,
 		Gen:        genC11,
@@ -47,6 +50,7 @@ func init() {
 		Shrink:     shrinkC11,
 		TimeoutMs:  10000,
 		Assumptions: []string{
+			"reader cases: os.ReadFile and http.Client.Do are observed through a scratch directory and a recording RoundTripper; DefaultReadFromURI itself is only called for locations ReadFromHTTP declines",
 			"reference texts are parsed by net/url on the harness side (scheme, host, path, fragment are inputs of the model)",
 			"fragment references target documents, whole-file references target element files (of the same or another kind; a callback reference only a callback file) or documents read as an element; deep fragments never cross a $ref node; no null elements; inline path items are non-empty",
 			"position tables and visiting order of the resolvers are encoded in the harness (c11ChildKind/c11OrderKey), written after the regenerated table WalkSites (obligation walk_sites_as_modelled) and validated by the comparison of read sequences",
@@ -538,8 +542,10 @@ func c11Derive(c hx.Case) hx.Case {
 	files := jlist(g["files"])
 	c["allowed"] = jbool(g, "allowed")
 	entry := jstr(g, "entry")
-	if entry == "reader" {
-		entry = "data" // LoadFromIoReader (and LoadFromStdin) read everything and call LoadFromData
+	if entry == "reader" || entry == "resolveInNil" {
+		// LoadFromIoReader (and LoadFromStdin) read everything and call LoadFromData; the public ResolveRefsIn(doc, nil) on a
+		// fresh Loader and a document the caller unmarshalled is LoadFromData without the unmarshalling
+		entry = "data"
 	}
 	c["entry"] = entry
 	c["rootInStore"] = jbool(g, "rootInStore")
@@ -575,6 +581,9 @@ func c11Derive(c hx.Case) hx.Case {
 func runC11(c hx.Case) any {
 	if c11IsHistory(c) {
 		return runC11History(c)
+	}
+	if c11IsReader(c) {
+		return runC11Reader(c)
 	}
 	g, _ := c["g"].(map[string]any)
 	files := jlist(g["files"])
@@ -628,6 +637,11 @@ func runC11(c hx.Case) any {
 			_, err = loader.LoadFromDataWithPath(rootBody, ru)
 		case "reader":
 			_, err = loader.LoadFromIoReader(bytes.NewReader(rootBody))
+		case "resolveInNil":
+			doc := &openapi3.T{}
+			if err = json.Unmarshal(rootBody, doc); err == nil {
+				err = loader.ResolveRefsIn(doc, nil)
+			}
 		default:
 			_, err = loader.LoadFromData(rootBody)
 		}
@@ -714,6 +728,9 @@ func cmpC11(c hx.Case, impl any, reply map[string]any) hx.Verdict {
 	}
 	if c11IsHistory(c) {
 		return cmpC11History(c, im, model, spec)
+	}
+	if c11IsReader(c) {
+		return cmpC11Reader(c, im, model, spec)
 	}
 	v := hx.Verdict{IM: true, IS: true}
 	ilog, mlog := toStrs(im["log"]), toStrs(model["log"])
@@ -1041,9 +1058,9 @@ func (u *c11Uni) docOrElem(view string, loc string, depth int) c11El {
 func c11RandomCase(r *hx.Rng) hx.Case {
 	u := &c11Uni{r: r, byKey: map[string]bool{}, budget: 2 + r.Intn(5)}
 	rootLoc := hx.Pick(r, []string{"/r/a/root.json", "/r/a/root.json", "/r/a/root.json", "http://h.example/r/a/root.json", "r/a/root.json", "/r/a/sub/root.json", "file:///r/a/root.json"})
-	entry := hx.Pick(r, []string{"file", "file", "file", "dataWithPath", "dataWithPath", "data", "data", "reader"})
+	entry := hx.Pick(r, []string{"file", "file", "file", "dataWithPath", "dataWithPath", "data", "data", "reader", "resolveInNil"})
 	base := rootLoc
-	if entry == "data" || entry == "reader" {
+	if entry == "data" || entry == "reader" || entry == "resolveInNil" {
 		base = ""
 	}
 	pu, _ := url.Parse(rootLoc)
@@ -1353,7 +1370,7 @@ func genC11(ctx *hx.Ctx, emit func(hx.Case)) {
 		{"shared%20defs/", "/r/a/shared%20defs/", false}, {"sp ace/", "/r/a/sp%20ace/", true}, {"d\u00e9f/", "/r/a/d%C3%A9f/", false},
 		{"a+b/", "/r/a/a+b/", true}, {"../b/sh%20x/", "/r/b/sh%20x/", true}, {"sub/d\u00e9 f/", "/r/a/sub/d%C3%A9%20f/", false},
 	}
-	entries := []string{"file", "dataWithPath", "data"}
+	entries := []string{"file", "dataWithPath", "data", "resolveInNil"}
 	for pi, p := range pos {
 		kind := jstr(c11At(skel, p), "k")
 		for si, sp := range spellings {
@@ -1403,6 +1420,8 @@ func genC11(ctx *hx.Ctx, emit func(hx.Case)) {
 			}
 		}
 	}
+	c11GenReaders(ctx, emit)
+	c11GenRootNames(ctx, emit)
 	c11GenChains(ctx, emit)
 	c11GenRootChains(ctx, emit)
 	c11GenRereads(ctx, emit)
@@ -1611,6 +1630,9 @@ func c11GenOtherKind(ctx *hx.Ctx, emit func(hx.Case)) {
 func shrinkC11(c hx.Case) []hx.Case {
 	if c11IsHistory(c) {
 		return shrinkC11History(c)
+	}
+	if c11IsReader(c) {
+		return nil
 	}
 	var out []hx.Case
 	g0, _ := c["g"].(map[string]any)
